@@ -486,6 +486,101 @@ Qed.
 
 End WithArith.
 
+
+Section DProofs.
+Variable A : arith C C C.
+Variables um ua uh ur epsv : C.
+Hypothesis SR : std_round A um ua uh ur epsv.
+
+(* ------------------------------------------------------------------ mps_dnewton *)
+Lemma dnewton_eq n (cs ms : seq C) z r0 :
+  dnewton A n cs ms z r0 =
+  let ph := ph_of A z cs in let dh := dh_of A z cs in
+  if ~~ ceq0 A ph && ceq0 A dh then Nout ph dh r0 r0 false (czero A) r0
+  else
+    let corr := if ceq0 A ph then czero A else cdiv A ph dh in
+    let az := cmod A z in
+    let ap := apsum A az (List.rev ms) in
+    let absp := cmod A ph in
+    let apeps := rmuld A ap (deps4n A n) in
+    let again := rgt A absp apeps in
+    let rnew := rdiv A (radd A absp apeps) (cmod A dh) in
+    let rad := if again then rmuld A rnew (dnat A n)
+               else let rnew' := rmuld A rnew (dnat A (n + 1)) in if rlt A rnew' r0 then rnew' else r0 in
+    Nout ph dh ap absp again corr (radd_eq A rad (rmuld A az (dmul A (dnat A 4) (deps A)))).
+Proof. by rewrite /dnewton /ph_of /dh_of; case: (horner2 _ _ _). Qed.
+
+(* NULL DERIVATIVE branch: nothing is claimed beyond what was there *)
+Theorem dnewton_null_derivative n (cs ms : seq C) z r0 :
+  let o := dnewton A n cs ms z r0 in
+  o_p o != 0 -> o_p1 o = 0 -> o_rad o = r0 /\ o_again o = false.
+Proof.
+rewrite dnewton_eq /= !(sr_ceq0 SR).
+case: ifP => [_ //|]; rewrite /= => H pn0 d0; move: H.
+by rewrite pn0 d0 eqxx.
+Qed.
+
+(* the radius as coded: n or n+1 times (absp + apeps)/|p1^|, or the entry radius when that is smaller, plus 4 eps |z| *)
+Theorem dnewton_sound n (cs ms : seq C) z r0 eta :
+  size cs = n.+1 -> ms_ok uh cs ms -> last 0 cs != 0 ->
+  (forall a b, 0 <= a -> 0 <= b -> a <= radd_eq A a b) ->
+  0 <= r0 -> (exists2 w, root (Poly cs) w & `|z - w| <= r0) ->
+  let o := dnewton A n cs ms z r0 in
+  o_p1 o != 0 -> `|o_p1 o - (Poly cs)^`().[z]| <= eta * `|o_p1 o| -> 0 <= eta -> eta < 1 ->
+  COND uh (rho4 ur) (e_d uh ur epsv n) (gam um ua n) eta ->
+  exists2 w, root (Poly cs) w & `|z - w| <= o_rad o.
+Proof.
+move=> sz Hms Hl Hmono r00 Hr0; rewrite dnewton_eq /= !(sr_ceq0 SR).
+case: ifP => [/andP [_ /eqP ->] /=|_ /=]; first by rewrite eqxx.
+move=> dn0 Hd eta0 eta1 HC.
+set p := Poly cs.
+have szp : size p = n.+1 by apply: size_Poly_last.
+have pn0 : p != 0 by rewrite -size_poly_eq0 szp.
+have [Hv HS] := horner2_value_error SR z sz.
+have [He e0] := deps4n_lower SR n.
+have Haz := near_ge (sr_cmod SR z).
+have [HE [E0 ap0]] := @Eterm_lower _ A um ua uh ur epsv SR n cs ms z (cmod A z) (deps4n A n) 2 sz Hms Haz He e0.
+set E := rmuld A _ (deps4n A n) in HE E0 *.
+have m0 := cmod_pos SR dn0.
+have a0 := cmod_ge0 SR (ph_of A z cs).
+have az0 := cmod_ge0 SR z.
+have t0 : 0 <= rmuld A (cmod A z) (dmul A (dnat A 4) (deps A)).
+  have d0 : 0 <= dmul A (dnat A 4) (deps A).
+    rewrite (sr_dnat SR) (sr_deps SR).
+    have H4 := sr_dmul SR (ler0n _ 4) (sr_eps SR).
+    apply: near_ge0 H4; first exact: (ltW (sr_ur1 SR)).
+    by rewrite mulr_ge0 ?ler0n ?(sr_eps SR).
+  have H5 := sr_rmuld SR az0 d0.
+  apply: near_ge0 H5; first exact: (ltW (sr_ur1 SR)).
+  by rewrite mulr_ge0.
+have ur1' : 0 <= 1 - ur by rewrite subr_ge0 (ltW (sr_ur1 SR)).
+(* the generic part: any rad' >= (1-ur)^3 n (absp+E)/m *)
+have core rad' : (1 - ur) ^+ 3 * (n%:R * (cmod A (ph_of A z cs) + E) / cmod A (dh_of A z cs)) <= rad' ->
+    exists2 w, root p w & `|z - w| <= radd_eq A rad' (rmuld A (cmod A z) (dmul A (dnat A 4) (deps A))).
+  move=> Hrad.
+  have r0' : 0 <= rad'.
+    apply: le_trans Hrad; rewrite mulr_ge0 ?exprn_ge0 // mulr_ge0 ?invr_ge0 ?(ltW m0) // mulr_ge0 ?ler0n // addr_ge0 //.
+  apply: (@core_sound _ A um ua uh ur epsv SR p z (ph_of A z cs) (dh_of A z cs) (Sabs cs z) E _ (rho4 ur) (e_d uh ur epsv n) (gam um ua n) eta) => //.
+  - exact: (gam_ge0 SR).
+  - by rewrite exprn_ge0.
+  rewrite szp /=.
+  apply: le_trans (near_ge (sr_radd_eq SR r0' t0)).
+  rewrite /rho4 exprS -(mulrA (1 - ur)) ler_wpmul2l //.
+  apply: (@le_trans _ _ rad'); last by rewrite ler_addl.
+  apply: le_trans Hrad; rewrite ler_wpmul2l ?exprn_ge0 //.
+  by apply: (frac_lower SR) => //; rewrite ler0n.
+rewrite (sr_rlt SR).
+case: ifP => _.
+  apply: core; rewrite (sr_dnat SR); apply: (chain_d SR) => //; exact: ler0n.
+case: ifP => _; last first.
+  have [w rw Hw] := Hr0; exists w => //; apply: le_trans Hw _; exact: Hmono.
+apply: core; rewrite (sr_dnat SR).
+apply: le_trans (chain_d SR a0 E0 (ler0n _ (n + 1)) m0).
+rewrite ler_wpmul2l ?exprn_ge0 // -!mulrA ler_wpmul2r ?mulr_ge0 ?invr_ge0 ?(ltW m0) ?addr_ge0 //.
+by rewrite ler_nat leq_addr.
+Qed.
+End DProofs.
+
 (* ------------------------------------------------------------------ the exact arithmetic is an instance *)
 Definition exactA (epsv : C) : arith C C C :=
   {| cmul := *%R; cadd := +%R; csub := fun a b => a - b; cmuld := *%R; cinv := GRing.inv; cinv_eq := GRing.inv;
